@@ -34,7 +34,7 @@ ASSUMPTIONS = [
     'pixel (x,y) is the low nibble of gfx[y*64+x//2] for even x and the high nibble for odd x (gfx.py module '
     'docstring); map row y>=32 is gfx[4096+(y-32)*128+x] (map.py module docstring)',
     'in-contract arguments: sprite/flag ids 0-255, sfx/music ids 0-63, notes 0-31, channels 0-3, map x 0-127, '
-    'y 0-63, offsets >= 0, sizes >= 1, get_rect_* with y+height <= 64, pixel values 0-15 or gfx.TRANSPARENT '
+    'y 0-63, offsets >= 0, sizes >= 1 (get_rect_* may reach past the 64th row: off-edge tiles are 0, as documented), pixel values 0-15 or gfx.TRANSPARENT '
     '(16), tile values and flags 0-255, sfx property values within their documented ranges',
     'music flag bits follow get_properties/set_properties and the .p8 reader (bit 7 of byte 0 = begin, byte 1 '
     '= end, byte 2 = stop); the music.py module docstring lists them in the opposite order',
@@ -321,7 +321,7 @@ def assert_contract(op):
               _isint(a[2], 0, 63) and a[3] in WRAPS)
     elif name in ('get_rect_tiles', 'get_rect_pixels'):
         ok = (_isint(a[0], 0, 127) and _isint(a[1], 0, 63) and _isint(a[2], 1, 1 << 10) and
-              _isint(a[3], 1, 64) and a[1] + a[3] <= 64)
+              _isint(a[3], 1, 128))
     elif name in ('get_flags', 'set_flags', 'clear_flags', 'reset_flags'):
         ok = _isint(a[0], 0, 255) and _isint(a[1], 0, 255)
     elif name == 'get_note':
@@ -756,9 +756,10 @@ def _dec_get_rect(ch, name, max_w, max_h, max_area):
         y = 31 - ch.below(3)
         h = 32 - y + ch.pick((1, 0, 2))
     elif kind == 'bottom':
+        # ... up to and across the bottom edge: rows past the 64th are returned as 0 (get_rect_tiles docstring)
         y = 63 - ch.below(4)
-        h = 64 - y
-    h = max(1, min(h, 64 - y))
+        h = 64 - y + ch.pick((0, 0, 1, 2, 40))
+    h = max(1, h)
     while w * h > max_area:
         if w >= h:
             w -= 1
@@ -962,8 +963,6 @@ def map_edge_histories(group, dseed):
             for y in ys:
                 for w in sizes:
                     for h in sizes:
-                        if y + h > 64:
-                            continue
                         yield [['get_rect_tiles', x, y, w, h], ['get_rect_pixels', x, y, w, h]]
         for sid in sorted(set(range(15, 256, 16)) | set(range(240, 256))):
             for tw in sizes:
